@@ -63,7 +63,7 @@ Lemma smul_0 P : sm 0 P = e.
 Proof. reflexivity. Qed.
 
 Lemma smul_1 P : ok P -> sm 1 P = P.
-Proof. intros. cbn. auto. Qed.
+Proof. intros. unfold smul. change (1 <? 0) with false. change (Z.to_nat 1) with 1%nat. cbn [nsmul]. auto. Qed.
 
 Lemma smul_succ k P : ok P -> sm (k + 1) P = op (sm k P) P.
 Proof.
@@ -74,7 +74,8 @@ Proof.
       cbn [nsmul]. set (m := nsm (Z.to_nat (- (k + 1))) P).
       assert (ok m) by (subst m; auto).
       rewrite inv_op, op_assoc, op_inv_l, op_e_r; auto.
-    + assert (k = -1) by lia. subst k. cbn. rewrite op_e_l, op_inv_l; auto.
+    + assert (k = -1) by lia. subst k. change (Z.to_nat (- -1)) with 1%nat. change (Z.to_nat (-1 + 1)) with 0%nat.
+      cbn [nsmul]. rewrite op_e_l, op_inv_l; auto.
   - destruct (Z.ltb_spec (k + 1) 0); [lia|].
     replace (Z.to_nat (k + 1)) with (S (Z.to_nat k)) by lia. reflexivity.
 Qed.
@@ -112,6 +113,12 @@ Proof. intros HP. rewrite <- smul_add by auto. f_equal. lia. Qed.
 
 Lemma smul_minus_1 P : ok P -> sm (-1) P = inv P.
 Proof. intros HP. change (-1) with (- (1)). rewrite smul_opp, smul_1; auto. Qed.
+
+Lemma nsmul_e n : nsm n e = e.
+Proof. induction n; cbn [nsmul]; [reflexivity|]. rewrite IHn. auto. Qed.
+
+Lemma smul_e k : sm k e = e.
+Proof. unfold smul. destruct (k <? 0); rewrite nsmul_e; auto using inv_e. Qed.
 
 (* scalars act modulo any n that annihilates P *)
 Lemma smul_order_mul n P : ok P -> sm n P = e -> forall q, sm (n * q) P = e.
